@@ -1,5 +1,6 @@
 import Req.Props.C06
 import Req.Lemmas.C06Wake
+import Req.Lemmas.C06WakeW
 /-!
 C06, round 4 — the liveness half "a peer that stays within its limits never stalls a request
 for ever", wake-up discipline.
@@ -64,6 +65,22 @@ theorem wake_is_silent (cfg : Cfg) (hfix : cfg.fixes.mcsWake = true) (ops : List
               simp [hl]
             rw [h] at this; cases this
           · rfl
+
+/-- **writer_woken** — the same for the body writers blocked in `awaitFlowControl`: in every state,
+whenever an operation raises the send window a live stream's writer sees
+(`cs.flow.available()` = min(connection window, stream window)), that operation ends in a
+broadcast. Only an applied WINDOW_UPDATE and a SETTINGS frame with SETTINGS_INITIAL_WINDOW_SIZE
+can raise it (`noraise_apply`: every other handler leaves every send window where it was or
+lower), and both are in the table `Conn.wakes`. -/
+theorem writer_woken (st : State) (op : Op) (id : Nat) (a a1 : Int)
+    (h0 : availOf st id = some a) (h1 : availOf (apply st op).1 id = some a1) (hup : a < a1) :
+    wakes st (apply st op).1 op = true :=
+  writer_woken_apply st op id a a1 h0 h1 hup
+
+/-- a writer blocked on a stream window of 0 sees 100 after the peer's WINDOW_UPDATE -/
+example :
+    let st := (run exampleCfg [.peer (.settings [(sInitialWindowSize, 0)]), .openStream 40 1000 true, .feed 1 0]).1
+    availOf st 1 = some 0 ∧ availOf (apply st (.peer (.windowUpdate 1 100))).1 1 = some 100 := by decide
 
 /-- strict mode, the peer allows no stream at first, then five -/
 def cfgStrict (fx : Fixes) : Cfg :=
